@@ -27,7 +27,10 @@ var certSerials = func() []*big.Int {
 	p := func(s string) *big.Int { v, _ := new(big.Int).SetString(s, 10); return v }
 	two := big.NewInt(2)
 	return []*big.Int{big.NewInt(1), big.NewInt(0), big.NewInt(255), big.NewInt(256), big.NewInt(257), big.NewInt(65536),
-		new(big.Int).Exp(two, big.NewInt(64), nil), new(big.Int).Exp(two, big.NewInt(159), nil), p("12"), p("120"), big.NewInt(2)}
+		new(big.Int).Exp(two, big.NewInt(64), nil), new(big.Int).Exp(two, big.NewInt(159), nil), p("12"), p("120"), big.NewInt(2),
+		// word-size boundaries, and 8/10/16: "010" and "0x10" read in another base name a different certificate
+		new(big.Int).Exp(two, big.NewInt(63), nil), p("18446744073709551615"), p("9223372036854775807"), p("4294967296"), p("2147483648"),
+		big.NewInt(8), big.NewInt(10), big.NewInt(16)}
 }()
 
 type seedReader struct {
@@ -156,6 +159,19 @@ func (g *gen) revokeCert() *Op {
 	}
 	if owner == nil {
 		owner = g.anyActor("rc.owner")
+	}
+	// other spellings of a decimal number (serials travel as strings): zero-padded, signed, hexadecimal
+	switch r.Weighted([]int{88, 5, 3, 2, 2}, "rc.spelling") {
+	case 1:
+		serial = "0" + serial
+	case 2:
+		serial = "+" + serial
+	case 3:
+		if v, ok := new(big.Int).SetString(serial, 10); ok {
+			serial = "0x" + v.Text(16)
+		}
+	case 4:
+		serial = "00" + serial
 	}
 	msg := &ctypes.MsgRevokeCertificate{ID: ctypes.CertificateID{Owner: owner.Bech, Serial: serial}}
 	return &Op{Kind: "RevokeCertificate", Msg: msg, Required: owner}
